@@ -69,6 +69,7 @@ class Block:
         self.substs = []
         self.outlines = []
         self.add_params = []
+        self.add_generics = None
 
 
 def parse_template(text):
@@ -156,6 +157,8 @@ def parse_template(text):
                     elif key == 'outline':
                         om = dict(shlex.split(kv)[0].split('=', 1) if False else kv.split('=', 1) for kv in shlex.split(d[len('outline'):]))
                         blk.outlines.append(om)
+                    elif key == 'add_generics':
+                        blk.add_generics = d[len('add_generics'):].strip()
                     elif key == 'add_param':
                         blk.add_params.append(d[len('add_param'):].strip())
                     elif key == 'subst':
@@ -294,6 +297,9 @@ def _body_rewrites(src, ed, lo, hi, loops, blk, log):
         while k + len(pat) <= last:
             if all(sig[k + j].text == pat[j] for j in range(len(pat))):
                 a, b = sig[k].start, sig[k + len(pat) - 1].end
+                if any(not (b <= x or a >= y) for x, y, _, tg in ed.ed if y > x and tg == 'R-subst'):
+                    k += 1   # already covered by an earlier (higher-priority) substitution
+                    continue
                 ed.replace(a, b, to, 'R-subst')
                 log.append(f'R-subst {src.rel}:{src.line_of(a)} `{frm}` => `{to}`')
                 hits += 1
@@ -452,6 +458,13 @@ def lift_block(blk, log, meta, canary=False):
     if kind == 'item':
         ed = Edits(src, sig[fi.fn_idx].start, sig[fi.close_idx].end)
         _sig_rewrite(src, fi, ed, a.get('ret', 'r'), name if (canary or 'as' in a) else None, log)
+        if blk.add_generics:
+            nm = sig[fi.fn_idx + 1]
+            if sig[fi.fn_idx + 2].text == '<':
+                ed.insert(sig[fi.fn_idx + 2].end, blk.add_generics + ', ', 'R9')
+            else:
+                ed.insert(nm.end, '<' + blk.add_generics + '>', 'R9')
+            log.append(f'R9 {src.rel}:{src.line_of(nm.start)} trait default method lifted as a free function generic over `{blk.add_generics}`')
         if blk.add_params:
             # first `(` after the fn name (and generics) that opens the parameter list
             j = fi.fn_idx + 2
@@ -564,6 +577,10 @@ def lift_block(blk, log, meta, canary=False):
 def assemble(template_path, canary=False):
     """Return (text, linetable, meta). linetable[i] describes output line i+1."""
     text = open(template_path, encoding='utf-8').read()
+    # shared contract fragments (the same lifted function + contract is verified in every unit that relies on it)
+    def _frag(m):
+        return open(os.path.join(VERIF, 'units', 'frag', m.group(1) + '.vrs'), encoding='utf-8').read()
+    text = re.sub(r'(?m)^//@fragment (\w+)\s*$', _frag, text)
     log = []
     meta = {'functions': [], 'includes': []}
     segs = []
